@@ -115,10 +115,14 @@ func (s *ftpService) SetChannel(c pushers.Channel) {
 
 func (s *ftpService) Handle(ctx context.Context, conn net.Conn) error {
 
-	ftpConn := s.server.newConn(conn, s.driver, s.recv)
+	// the command log of this connection: its own channel, closed when
+	// the session ends so that the pump below ends with it
+	recv := make(chan string)
+
+	ftpConn := s.server.newConn(conn, s.driver, recv)
 
 	go func() {
-		for msg := range s.recv {
+		for msg := range recv {
 			s.c.Send(event.New(
 				services.EventOptions,
 				event.Category("ftp"),
@@ -131,6 +135,8 @@ func (s *ftpService) Handle(ctx context.Context, conn net.Conn) error {
 	}()
 
 	ftpConn.Serve()
+
+	close(recv)
 
 	return nil
 }
